@@ -109,14 +109,14 @@ def run(ctx):
     vlib.go_build("c01")
     prepare_spec(ctx)
     bugs = BUGS_QUICK if quick else BUGS_ALL
-    ncpu = vlib.NCPU
-    with cf.ThreadPoolExecutor(max_workers=32) as ex:
-        # design level, in the background: the mechanism model against NoInherit, and the non-vacuity probes
-        # (one TLC per family: the initial states -- the files -- are computed single-threaded)
-        mc_main = [ex.submit(cache_mc, ctx, "none", full, ctx.seed, [fam], 2) for fam in MC_FAMS]
-        mc_bugs = [ex.submit(cache_mc, ctx, b, False, ctx.seed, ["probe"], 1) for b in bugs]
+    # vlib.tlc holds machine-wide CPU slots per TLC worker: keep the number of concurrent TLC processes small
+    with cf.ThreadPoolExecutor(max_workers=4) as genpool, cf.ThreadPoolExecutor(max_workers=2) as mcpool:
+        # design level, in the background: the mechanism model against NoInherit over every file of the 8 data families,
+        # then the non-vacuity probes one after the other
+        mc_main = mcpool.submit(cache_mc, ctx, "none", full, ctx.seed, MC_FAMS, 2 if quick else 4)
+        mc_bugs = mcpool.submit(lambda: [cache_mc(ctx, b, False, ctx.seed, ["probe"], 1) for b in bugs])
         # case generation, one TLC per family
-        gens = [ex.submit(gen_family, ctx, fam, full, ctx.seed, "PbfFormatGen", 'CONSTANT Fam = "%s"\n' % fam) for fam in FAMS]
+        gens = [genpool.submit(gen_family, ctx, fam, full, ctx.seed, "PbfFormatGen", 'CONSTANT Fam = "%s"\n' % fam) for fam in FAMS]
         cases, per_fam = [], {}
         for g in gens:
             fam, cs, r = g.result()
@@ -134,21 +134,20 @@ def run(ctx):
         vlib.log("C01: %d scans of the real scanner recorded  [t=%.0fs]" % (nscans, time.time() - ctx.t0))
         ctx.samples = sorted(recs, key=lambda r: len(json.dumps(r)))[:2]     # the two smallest records, verbatim
 
-        judge = lambda rs: vlib.tlc_judge(ctx, "PbfFormatJudge", "PbfFormatJudge.cfg", rs, shards=min(8, max(1, len(rs) // 300)), timeout=2400)
+        judge = lambda rs: vlib.tlc_judge(ctx, "PbfFormatJudge", "PbfFormatJudge.cfg", rs, shards=min(6, max(1, len(rs) // 300)), timeout=2400)
         vlib.judge_and_confirm(ctx, cases, recs, lambda cs: execute(ctx, cs), judge)
         vlib.log("C01: judged by TLC  [t=%.0fs]" % (time.time() - ctx.t0))
 
-        for fam, f in zip(MC_FAMS, mc_main):
-            bug, r = f.result()
-            add_run(ctx, "PbfFormatCache", "Bug=none Full=%s Fams=%s" % (full, fam), r)
-            if not r.ok():
-                raise vlib.Infra("PbfFormatCache does not satisfy NoInherit on family %s (rc=%s, %s):\n%s" % (fam, r.rc, r.violation, r.out[-4000:]))
-        for f in mc_bugs:
-            bug, r = f.result()
+        bug, r = mc_main.result()
+        add_run(ctx, "PbfFormatCache", "Bug=none Full=%s Fams=%s" % (full, ",".join(MC_FAMS)), r)
+        if not r.ok():
+            raise vlib.Infra("PbfFormatCache does not satisfy NoInherit (rc=%s, %s):\n%s" % (r.rc, r.violation, r.out[-4000:]))
+        for bug, r in mc_bugs.result():
             add_run(ctx, "PbfFormatCache", "Bug=%s Fams=probe (violation expected)" % bug, r)
             if r.violation != "NoInherit":
                 raise vlib.Infra("PbfFormatCache with Bug=%s: expected a NoInherit violation, got rc=%s %s (vacuous invariant?)\n%s"
                                  % (bug, r.rc, r.violation, r.out[-3000:]))
+        vlib.log("C01: mechanism model checked  [t=%.0fs]" % (time.time() - ctx.t0))
     ctx.extra["cases_per_family"] = per_fam
     ctx.extra["nonvacuity_probes"] = {b: "NoInherit violated as required" for b in bugs}
     ctx.exhaustive = True
